@@ -235,8 +235,19 @@ func runC19(c *Ctx) {
 		}
 		// bound
 		boundOK := false
-		if len(li.Back) > 0 && len(li.Back[0].Conds) > 0 {
-			r := li.Back[0].Conds[0].Rel()
+		var boundCond *Cond
+		if len(li.Back) > 0 {
+			// the loop's own condition: the first branch that looks at the loop variable (a guard in front of the loop
+			// comes earlier on the path and does not)
+			for k := range li.Back[0].Conds {
+				if li.Back[0].Conds[k].T.ContainsKey(lv.Key()) {
+					boundCond = &li.Back[0].Conds[k]
+					break
+				}
+			}
+		}
+		if boundCond != nil {
+			r := boundCond.Rel()
 			if pl, kind, isInt := r.IntNorm(); isInt && kind == ">" {
 				if s.full {
 					lenB := ToPoly(&Term{Op: "builtin", Sym: "len", Args: []*Term{paramOf(fi, 1)}})
@@ -259,9 +270,36 @@ func runC19(c *Ctx) {
 		} else if init == nil || !(init.IsNil() || (init.Op == "mkslice" && init.Args[0].IsConst("0"))) {
 			okNB, whyN = false, "result does not start empty"
 		}
+		// the loop bound at the start of the loop (max - 0, resp. len(buf) - 0): an early return is harmless exactly
+		// when it is taken only where the loop would not have run either
+		var boundAtInit *Poly
+		if s.full {
+			boundAtInit = ToPoly(&Term{Op: "builtin", Sym: "len", Args: []*Term{paramOf(fi, 1)}})
+		} else {
+			boundAtInit = ToPoly(paramOf(fi, 1))
+		}
 		for _, p := range ps {
 			if p.LoopIn[li.Hdr] == nil {
-				okNB, whyN = false, "a path avoids the loop"
+				// a guard in front of the loop: no channel operation, the empty result, and a condition under which the
+				// loop's own bound is already exhausted (max <= 0, len(buf) == 0)
+				harmless := p.End == EndReturn && len(p.Rets) == 1 && len(p.Conds) == 1
+				if harmless {
+					for i := range p.Events {
+						if k := p.Events[i].Kind; k == "recv" || k == "select" || k == "send" || k == "store" {
+							harmless = false
+						}
+					}
+					ret := p.Rets[0]
+					if s.full {
+						harmless = harmless && ret.IsConst("0")
+					} else {
+						harmless = harmless && (ret.IsNil() || ret.Op == "zero")
+					}
+					harmless = harmless && impliesNonPositive(p.Conds[0].Rel(), boundAtInit)
+				}
+				if !harmless {
+					okNB, whyN = false, "a path avoids the loop"
+				}
 				continue
 			}
 			for i := range p.Events {
@@ -336,7 +374,20 @@ func runC19(c *Ctx) {
 						okNB, whyN = false, "the received value is not stored at buf[index] with index advancing by one"
 					}
 				} else {
-					good := nx.Op == "builtin" && nx.Sym == "append" && len(nx.Args) == 2 && nx.Args[0].Key() == lv.Key() && len(stores) == 0
+					good := nx.Op == "builtin" && nx.Sym == "append" && len(nx.Args) == 2 && len(stores) == 0
+					if good && nx.Args[0].Key() != lv.Key() {
+						// appending to a fresh, empty, pre-sized slice on the path where the accumulator is still nil gives
+						// the same sequence of values (a capacity is not a length)
+						base := nx.Args[0]
+						wasNil := false
+						for _, cd := range p.Conds {
+							r := cd.Rel()
+							if r.B != nil && r.Op == "==" && r.A.Key() == lv.Key() && r.B.IsNil() {
+								wasNil = true
+							}
+						}
+						good = wasNil && base.Op == "mkslice" && len(base.Args) >= 1 && base.Args[0].IsConst("0")
+					}
 					if good {
 						// the appended element is the received value
 						holds := false
@@ -513,6 +564,30 @@ func positiveTimeoutOnPath(p *Path, timeout *Term) bool {
 				return true
 			}
 		}
+	}
+	return false
+}
+
+// impliesNonPositive: the relation r (A op B over integers) implies bound <= 0, by comparing normal forms only:
+// D = A - B; D <= 0 or D < 0 with D == bound; D >= 0 or D > 0 with -D == bound; D == 0 with D == +-bound.
+func impliesNonPositive(r Rel, bound *Poly) bool {
+	if r.B == nil || bound == nil {
+		return false
+	}
+	D := ToPoly(r.A).Add(ToPoly(r.B), -1)
+	negD := polyConst(0).Add(D, -1)
+	one := polyConst(1)
+	switch r.Op {
+	case "<=":
+		return D.Equal(bound)
+	case "<": // D <= -1
+		return D.Equal(bound) || D.Add(one, 1).Equal(bound)
+	case ">=":
+		return negD.Equal(bound)
+	case ">":
+		return negD.Equal(bound) || negD.Add(one, 1).Equal(bound)
+	case "==":
+		return D.Equal(bound) || negD.Equal(bound)
 	}
 	return false
 }
